@@ -144,3 +144,19 @@ func specJSONSpace(c byte) bool { return c == ' ' || c == '\t' || c == '\n' || c
 //@ func replacePrefix
 //@   props C25
 //@   requires err != nil
+
+// ---------------------------------------------------------------------------
+// HtmlEscape (C24) is scriggo.HTMLEscape: it passes s on unchanged and returns
+// that call's result (whose contract, in the root package's contract file, is
+// the functional specification).
+// ---------------------------------------------------------------------------
+
+func called(f string) bool              { return false }
+func lastArgStr(f string, i int) string { return "" }
+func lastResStr(f string) string        { return "" }
+
+//@ func HtmlEscape
+//@   props C24
+//@   opt track HTMLEscape
+//@   requires len(s) <= 1<<37
+//@   ensures called("HTMLEscape") && lastArgStr("HTMLEscape", 0) == s && string(result) == lastResStr("HTMLEscape")
